@@ -14,7 +14,15 @@ Why(ob, D) ==
            ty   == IF ObjHas(opt.es, "type") THEN ObjGet(opt.es, "type") ELSE [t |-> "absent"]
            want == CtorsD(ob.abs.ptype, Env(ob), D)
        IN
-       IF "ANY" \in SeqSet(want) THEN
+       IF IsFilter(ob.abs.ptype) THEN
+            (IF ty.t \in {"null", "absent"} \/ (ty.t = "bool" /\ ty.b) THEN ""                \* no check never rejects
+             ELSE LET got == SeqSet(TypeNames(ty))
+                      inh == FilterInhab(ob.abs.ptype, Env(ob), D) \ {"ANY"}
+                      parts == FilterParts(ob.abs.ptype, Env(ob), D) IN
+                  IF \E x \in inh : ~AcceptsCtor(got, x) THEN "rejects-inhabitant:" \o (CHOOSE x \in inh : ~AcceptsCtor(got, x))
+                  ELSE IF "ANY" \notin parts /\ got \ parts # {} THEN "accepts-foreign-constructor:" \o (CHOOSE x \in got \ parts : TRUE)
+                  ELSE "")
+       ELSE IF "ANY" \in SeqSet(want) THEN
             (IF ty.t \in {"null", "absent"} \/ (ty.t = "bool" /\ ty.b) THEN "" ELSE "type-check-where-any-value-is-allowed")
        ELSE IF ty.t = "absent" THEN ""                                   \* no check at all never rejects
        ELSE LET got == TypeNames(ty) IN
